@@ -14,6 +14,7 @@ mod prop_sc;
 mod sampler;
 mod sched;
 mod selftest;
+mod simdd;
 mod simf;
 mod simlog;
 mod simrng;
